@@ -342,6 +342,12 @@ def observe_mutate(sc, _box=None):
                 else:
                     m = set_match(b.steps(op[3]), val(op[4]), ms[op[2]], cascade=op[5])
                     fin("match", [m.path_as_str, m.data_name], m.data)
+            elif k == "mget_sd":
+                ms = list(itertools.islice(find_matches(b.steps(op[1]), doc), op[2] + 1))
+                if len(ms) <= op[2]:
+                    fin("nosrc", [], None, False)
+                else:
+                    fin("ok", [], get(b.steps(op[3]), ms[op[2]], default=val(op[4]), store_default=True))
             elif k == "pop":
                 if op[2][0] == "none":
                     r = pop(b.steps(op[1]), doc, **tkw)
